@@ -12,12 +12,15 @@ from ..util import (has_call, find_calls, assigned_value, const_str, unparse, kw
                     guards_of, call_tail, control_ancestors, name_bound, bound_names)
 from .. import mutate as M
 
+TECHNIQUE = 'static analysis: constant-folded decision table of the line splitter over character classes, incremental-decoder who-may-call rule, writer/reader predicate agreement (gz, terminator), ARFF keyword table, marker-position coverage rule'
+
 EXPLANATION = ("Rules over HttpSource._byte_it_, DelimSource.read, DiskSink/DiskSource and ArffAttrReader._encoder: inside "
                "the per-chunk loop bytes are decompressed by an object and decoded by an incremental decoder both created "
                "outside the loop; the keep-pending test of the line splitter, constant-folded over the classes of the last "
                "character {CR, LF, other}, defers every proper prefix of a terminator and joins the pending text before "
                "re-splitting; writer and reader agree on the gz predicate, the single LF terminator and its stripping; the "
                "ARFF attribute types of the grammar each have a case-insensitive arm and the default arm raises.")
+EXPLANATION += " R6: a bare '?' is recognised first, interior and last on the compacted line."
 
 SRC = "coba/pipes/sources.py"
 SNK = "coba/pipes/sinks.py"
